@@ -900,6 +900,8 @@ def produce(prop: str, rng: random.Random, wd: Path, j: int) -> dict:
         fam += "x"
     if prop in ("C03",) and rng.random() < 0.3:
         fam = "w3"
+    if prop == "C17" and rng.random() < 0.25:
+        fam = "w3"      # jumps next to a cancel: a JumpToStage handled after the accepted cancel must not revive anything (F56)
     spec = gen_spec(rng, fam)
     if prop in ("C03", "C05", "C02", "C06") and rng.random() < (0.2 if prop == "C03" else 0.08):
         spec = gen_orsplit_spec(rng)
